@@ -166,7 +166,13 @@ func hcChildMain(op string) {
 	}
 	switch f[0] {
 	case "hc-round":
-		hcChildRound(f[1])
+		slow := time.Duration(0)
+		if len(f) > 2 && strings.HasPrefix(f[2], "slow=") {
+			var ms int
+			fmt.Sscan(f[2][5:], &ms)
+			slow = time.Duration(ms) * time.Millisecond
+		}
+		hcChildRound(f[1], slow)
 	case "hc-rounds":
 		hcChildRounds(strings.Split(f[1], ","))
 	case "hc-stop":
@@ -194,7 +200,9 @@ func hcChildMain(op string) {
 }
 
 // one isolated round with the given result pattern
-func hcChildRound(ps string) {
+// slow > 0: healthCheck.timeout = slow and every failing ping takes exactly that long (a ping failing by its deadline on a
+// silent server); the outcome of a round must not depend on it
+func hcChildRound(ps string, slow time.Duration) {
 	p := hcPattern(ps)
 	s := len(p) // index of first success
 	for i, b := range p {
@@ -205,7 +213,7 @@ func hcChildRound(ps string) {
 	}
 	interval := 50 * time.Millisecond
 	if s < len(p) {
-		interval = time.Duration(s)*time.Second + 2500*time.Millisecond
+		interval = time.Duration(s)*(time.Second+slow) + 2500*time.Millisecond
 	}
 	done := make(chan struct{})
 	var once sync.Once
@@ -213,14 +221,18 @@ func hcChildRound(ps string) {
 	cl.onPing = func(n int, _ time.Duration) error {
 		hcSofar(fmt.Sprintf("pings=%d", n))
 		if n <= len(p) && !p[n-1] {
+			time.Sleep(slow)
 			return errors.New(hcErrText)
 		}
 		once.Do(func() { close(done) })
 		return nil
 	}
 	h := hcNew(interval, cl)
+	if slow > 0 {
+		h = couchbase.NewHealthCheck(&config.HealthCheck{Interval: interval, Timeout: slow}, cl)
+	}
 	h.Start()
-	if !hcWait(done, interval+time.Duration(len(p))*time.Second+3*time.Second) {
+	if !hcWait(done, interval+time.Duration(len(p))*(time.Second+slow)+3*time.Second) {
 		hcFinal(fmt.Sprintf("pings=%d timeout", cl.count()))
 		return
 	}
@@ -523,6 +535,8 @@ func runC19(c *Ctx) {
 			}
 			ops = append(ops, "hc-round "+p)
 		}
+		// pings that fail by their deadline (healthCheck.timeout = ping duration): the five-in-a-row rule is unchanged
+		ops = append(ops, "hc-round FFFFF slow=300", "hc-round FFFFS slow=300", "hc-round FFSFF slow=250", "hc-round FFFFF slow=1200")
 		// Stop() at every point of a round
 		ops = append(ops, "hc-stop before-tick")
 		for k := 1; k <= 4; k++ {
